@@ -166,12 +166,14 @@ func (e *Engine) load(pkgPaths []string) error {
 			switch m := m.(type) {
 			case *ssa.Function:
 				e.fnByKey[fnKey(m)] = m
+				e.addAnon(m)
 			case *ssa.Type:
 				for _, t := range []types.Type{m.Type(), types.NewPointer(m.Type())} {
 					ms := prog.MethodSets.MethodSet(t)
 					for i := 0; i < ms.Len(); i++ {
 						if fn := prog.MethodValue(ms.At(i)); fn != nil && fn.Synthetic == "" {
 							e.fnByKey[fnKey(fn)] = fn
+							e.addAnon(fn)
 						}
 					}
 				}
@@ -412,6 +414,11 @@ func cmdCheck(args []string) int {
 		}
 	}
 	// report
+	for _, sv := range eng.stableViolations() {
+		violations++
+		path := writeReplay(replayDir, "stable."+mangle(sv), "a field declared stable (written only during construction) is written elsewhere: "+sv+"\n")
+		fmt.Printf("VIOLATION property=%s replay=%s obligation=stable:%s no-failing-input-found\n", *prop, path, strings.Fields(sv)[0])
+	}
 	for _, k := range unbound {
 		violations++
 		path := writeReplay(replayDir, "unbound."+mangle(k), fmt.Sprintf("contract %s is not bound to any function in the current tree (function removed or renamed): the property can no longer be decided for it\n", k))
@@ -608,5 +615,66 @@ func runBounded(verif, prop, tier string) []map[string]interface{} {
 		out = append(out, map[string]interface{}{"name": e.Name, "label": "bounded (not a proof, not counted in discharged)", "bound": e.Bound, "stands_in_for": e.StandsInFor,
 			"cmd": strings.Join(e.Cmd, " "), "ok": err == nil, "output": truncate(strings.TrimSpace(string(o)), 1500), "wall_s": round3(time.Since(t0).Seconds())})
 	}
+	return out
+}
+
+func (e *Engine) addAnon(fn *ssa.Function) {
+	for _, a := range fn.AnonFuncs {
+		e.fnByKey[fnKey(a)] = a
+		e.addAnon(a)
+	}
+}
+
+// stableViolations: stores to fields declared stable that are not on an object allocated
+// in the same function (i.e. not construction).
+func (e *Engine) stableViolations() []string {
+	var out []string
+	for _, sp := range e.prog.AllPackages() {
+		if !strings.HasPrefix(sp.Pkg.Path(), modulePath) {
+			continue
+		}
+		var fns []*ssa.Function
+		for k, fn := range e.fnByKey {
+			if strings.HasPrefix(k, sp.Pkg.Path()+".") && fn.Pkg == sp {
+				fns = append(fns, fn)
+			}
+		}
+		for _, fn := range fns {
+			for _, b := range fn.Blocks {
+				for _, in := range b.Instrs {
+					st, ok := in.(*ssa.Store)
+					if !ok {
+						continue
+					}
+					fa, ok := st.Addr.(*ssa.FieldAddr)
+					if !ok {
+						continue
+					}
+					stT := fa.X.Type().Underlying().(*types.Pointer).Elem()
+					su, ok := stT.Underlying().(*types.Struct)
+					if !ok {
+						continue
+					}
+					key := typeKey(stT) + "." + su.Field(fa.Field).Name()
+					if !e.db.Stable[key] {
+						continue
+					}
+					base := fa.X
+					for {
+						if inner, ok := base.(*ssa.FieldAddr); ok {
+							base = inner.X
+							continue
+						}
+						break
+					}
+					if _, fresh := base.(*ssa.Alloc); fresh {
+						continue
+					}
+					out = append(out, fmt.Sprintf("%s written in %s at %s", shortKey(key), shortKey(fnKey(fn)), posStr(e.fset, st.Pos())))
+				}
+			}
+		}
+	}
+	sort.Strings(out)
 	return out
 }
